@@ -72,7 +72,7 @@ def plan(tier, seed):
 
 
 def mandatory(tier):
-    return ["functional", "functional/flag_sweep", "functional/mask_sweep", "functional/special_values", "functional/tensor_options", "accessors/constructors", "accessors/Grid", "accessors/Cube", "accessors/Image", "accessors/ImageBatch", "accessors/FlowFields", "transforms", "deepcopy", "pytest"]
+    return ["functional", "functional/flag_sweep", "functional/mask_sweep", "functional/special_values", "functional/tensor_options", "accessors/constructors", "accessors/Grid", "accessors/Cube", "accessors/Image", "accessors/ImageBatch", "accessors/FlowFields", "transforms", "transforms/composite_helpers", "transforms/composite_helpers/no_grad", "deepcopy", "pytest"]
 
 
 def run_item(ctx, item):
@@ -232,12 +232,20 @@ def mask_params(fn):
 
 
 # ------------------------------------------------------------------------------------------------
-def observe(ctx, label, obj, call, allow_same=True, probe=None, watch=None):
+def observe(ctx, label, obj, call, allow_same=True, probe=None, watch=None, must_succeed=False):
     r"""Call a non-underscore accessor on ``obj``; the receiver must be left exactly as it was."""
     snap = snapshot(obj)
     snap_args = snapshot(watch) if watch is not None else None
     sig = state_signature(obj)
-    before = probe(obj) if probe else None
+    before = None
+    if probe:
+        try:
+            before = probe(obj)
+        except Exception as e:  # noqa: BLE001  (the probe evaluates the object: same standing as the call itself)
+            ctx.exceptions[f"{label}:probe:{type(e).__name__}"] += 1
+            if must_succeed:
+                ctx.true("accessor_succeeds", False, key=f"exc/{label}", accessor=label, raised=f"{type(e).__name__}: {e}"[:300])
+            probe = None
     res = None
     exc = None
     try:
@@ -246,6 +254,8 @@ def observe(ctx, label, obj, call, allow_same=True, probe=None, watch=None):
         exc = e
         ctx.exceptions[f"{label}:{type(e).__name__}"] += 1
     changes = diff(snap)
+    if must_succeed:
+        ctx.true("accessor_succeeds", exc is None, key=f"exc/{label}", accessor=label, raised=f"{type(exc).__name__}: {exc}"[:300] if exc else None)
     if snap_args is not None:
         arg_changes = diff(snap_args)
         ctx.true("accessor_arguments_not_mutated", not arg_changes, key=f"argument/{label}/mutated", accessor=label, changes=arg_changes)
@@ -258,7 +268,11 @@ def observe(ctx, label, obj, call, allow_same=True, probe=None, watch=None):
     ctx.true("receiver_tensors_not_mutated", not changes, key=f"receiver/{label}/mutated", accessor=label, changes=changes, raised=type(exc).__name__ if exc else None)
     ctx.true("receiver_state_unchanged", not moved, key=f"receiver/{label}/state", accessor=label, changed=moved[:8], raised=type(exc).__name__ if exc else None)
     if probe and exc is None:
-        after = probe(obj)
+        try:
+            after = probe(obj)
+        except Exception as e:  # noqa: BLE001
+            ctx.true("receiver_still_evaluates_after_accessor", False, key=f"receiver/{label}/behaviour", accessor=label, raised=f"{type(e).__name__}: {e}"[:300])
+            return res
         same = len(before) == len(after) and all(a.shape == b.shape and bool((a == b).all()) for a, b in zip(before, after))
         ctx.true("receiver_behaviour_unchanged", same, key=f"receiver/{label}/behaviour", accessor=label)
     return res
@@ -501,9 +515,17 @@ def transforms(ctx, k):
     if t.linear:
         seq = S.SequentialTransform(t, safe_deepcopy(ctx, t, kind))
         ml = S.MultiLevelTransform(t, safe_deepcopy(ctx, t, kind))
-        observe(ctx, f"Sequential.tensor/{label}", seq, lambda o: o.tensor(), probe=None)
-        observe(ctx, f"MultiLevel.tensor/{label}", ml, lambda o: o.tensor(), probe=None)
-        observe(ctx, f"MultiLevel.call/{label}", ml, lambda o: o(x), probe=None)
+        # evaluated with and without autograd recording: an in-place accumulation into a member's parameter raises
+        # under autograd and silently changes the member without it
+        for rec in (True, False):
+            tag = label if rec else f"{label}/no_grad"
+            twice = lambda o: [o.tensor().detach().clone()]  # noqa: E731
+            with torch.set_grad_enabled(rec):
+                observe(ctx, f"Sequential.tensor/{tag}", seq, lambda o: o.tensor(), probe=twice, must_succeed=True)
+                observe(ctx, f"MultiLevel.tensor/{tag}", ml, lambda o: o.tensor(), probe=twice, must_succeed=True)
+                observe(ctx, f"MultiLevel.call/{tag}", ml, lambda o: o(x), probe=twice, must_succeed=True)
+                observe(ctx, f"MultiLevel.disp/{tag}", ml, lambda o: o.disp(), probe=twice, must_succeed=True)
+            ctx.bucket("transforms/composite_helpers" + ("" if rec else "/no_grad"))
     ctx.sample({"transform": label, "accessors": "grid, condition, disp, flow, call, copy, inverse, data(arg), link, unlink, matrix(arg)"}) if k == 0 else None
 
 
